@@ -317,10 +317,36 @@ func (c *Ctx) Lockset(pkgs ...string) *lockInfo {
 			}
 		}
 	}
+	// expanded copies (views.go) are not in the call graph: their own static calls are sites like any other …
+	for _, f := range fns {
+		if cg.Nodes[f] != nil || orig(topFunc(f)) == topFunc(f) {
+			continue
+		}
+		for _, ci := range allCalls(f, false) {
+			callee := staticCallee(ci)
+			if callee == nil {
+				continue
+			}
+			if _, isGo := ci.(*ssa.Go); isGo {
+				goTarget[callee] = true
+				continue
+			}
+			sites[callee] = append(sites[callee], site{ci, f})
+		}
+	}
+	// … and they are entered wherever the function they stand for is called
+	for _, f := range fns {
+		if o := orig(f); o != f {
+			sites[f] = append(sites[f], sites[o]...)
+			if goTarget[o] {
+				goTarget[f] = true
+			}
+		}
+	}
 	// external callers: a function called from a module package outside pkgs has an unknown (empty) entry set
 	external := map[*ssa.Function]bool{}
 	for _, f := range fns {
-		if n := cg.Nodes[f]; n != nil {
+		if n := cg.Nodes[orig(f)]; n != nil {
 			for _, e := range n.In {
 				if e.Caller.Func != nil && !inPkgs(e.Caller.Func) {
 					external[f] = true
